@@ -7,6 +7,7 @@ import (
 	"crypto/ecdh"
 	"crypto/tls"
 	"fmt"
+	"slices"
 	"strings"
 
 	"github.com/c2FmZQ/ech"
@@ -109,7 +110,7 @@ func guard(r *ev.Run, key string, replay any, f func()) {
 }
 
 func Run(r *ev.Run) {
-	r.Rule("E1 exhaustive product: config id x public-name length x ordered cipher-suite list x key length for ConfigSpec.Bytes; ids x names for NewConfig; lists of 0..3 configs and lists of 100..400 maximal configs (up to exactly the 65535-byte limit, and beyond it: an error is required); names with a trailing dot / only dots / upper case at codec level; every prefix / field-level truncation / byte substitution of valid encodings for the parser; crypto/tls client+server and ech.NewConn acceptance per (id class, name-length class, suite list). distinct = distinct encoded byte strings / distinct parser inputs")
+	r.Rule("E1 exhaustive product: config id x public-name length x ordered cipher-suite list x key length for ConfigSpec.Bytes; ids x names for NewConfig; lists of 0..3 configs and lists of 100..400 maximal configs (up to exactly the 65535-byte limit, and beyond it: an error is required); names with a trailing dot / only dots / upper case, KEM ids {0,0x10,0x20,0x21,0xffff} and suite lists with repeated entries at codec level; every prefix / field-level truncation / byte substitution of valid encodings for the parser; crypto/tls client+server and ech.NewConn acceptance per (id class, name-length class, suite list). distinct = distinct encoded byte strings / distinct parser inputs")
 	r.Assume("tlsref (independent codec written from draft-ietf-tls-esni §4) and crypto/tls are correct", "public names fed to crypto/tls are valid LDH DNS names (the draft admits no others)")
 	sl := suiteLists()
 	pub := hpkeref.DetKey("c11").PublicKey().Bytes()
@@ -208,6 +209,34 @@ func Run(r *ev.Run) {
 			r.Violation("newconfig-rawname:"+nameClass(name), fmt.Sprintf("NewConfig(%q) encodes public name %q, maximum_name_length %d (%v)", name, info.PublicName, info.MaxNameLen, err), name)
 		}
 		r.Eval("rawname:"+name, "ok-rawname")
+	}
+	// KEM ids other than X25519 (codec level: the structure carries any 16-bit id, 0 included) and suite lists with
+	// repeated entries: encoded as given, parsed back as given, the caller's spec untouched, a second call identical
+	for _, kem := range []uint16{0, 0x0010, 0x0020, 0x0021, 0xffff} {
+		for li, list := range [][]ech.CipherSuite{{{KDF: 1, AEAD: 1}}, {{KDF: 1, AEAD: 1}, {KDF: 1, AEAD: 1}}, {{KDF: 1, AEAD: 1}, {KDF: 1, AEAD: 1}, {KDF: 1, AEAD: 3}}, {{KDF: 1, AEAD: 3}, {KDF: 1, AEAD: 2}, {KDF: 1, AEAD: 2}, {KDF: 1, AEAD: 3}}, {{KDF: 0, AEAD: 0}, {KDF: 0, AEAD: 0}}} {
+			tag := fmt.Sprintf("kem%#x-suites%d", kem, li)
+			guard(r, "kem-suites:"+tag, tag, func() {
+				given := slices.Clone(list)
+				spec := ech.ConfigSpec{Version: 0xfe0d, ID: 5, KEM: kem, PublicKey: pub, CipherSuites: list, PublicName: []byte("kem.example")}
+				got, err := spec.Bytes()
+				if err != nil {
+					r.Violation("encode-err:"+tag, err.Error(), tag)
+					return
+				}
+				again, _ := spec.Bytes()
+				if !bytes.Equal(got, again) || !slices.Equal(list, given) {
+					r.Violation("encode-not-pure:suites", fmt.Sprintf("ConfigSpec.Bytes modified the caller's suite list (%v -> %v) or gives different bytes when called twice:\n %x\n %x", given, list, got, again), tag)
+				}
+				info, rest, err := tlsref.ParseConfig(got)
+				if err != nil || len(rest) != 0 || info.KEM != kem || !slices.Equal(info.Suites, refSuites(given)) {
+					r.Violation("encode-refparse:kem-or-suites", fmt.Sprintf("independent parser reads KEM %#x suites %v (err %v), the spec says KEM %#x suites %v", info.KEM, info.Suites, err, kem, given), tag)
+				}
+				if back, err := ech.Config(got).Spec(); err != nil || back.KEM != kem || !slices.Equal(back.CipherSuites, given) {
+					r.Violation("roundtrip:kem-or-suites", fmt.Sprintf("Spec() of Bytes() gives KEM %#x suites %v (err %v), want KEM %#x suites %v", back.KEM, back.CipherSuites, err, kem, given), tag)
+				}
+				r.Eval("kem:"+tag, "ok-kem-suites")
+			})
+		}
 	}
 	for _, nl := range []int{0, 256, 300} {
 		spec := ech.ConfigSpec{Version: 0xfe0d, ID: 9, KEM: 0x20, PublicKey: pub, CipherSuites: sl[0], PublicName: make([]byte, nl)}
